@@ -69,6 +69,9 @@ func cmdMigrate(args []string) {
 		{"wrapper", []error{&mig.W1{}, &mig.W2{}, &mig.W3{}}, []string{"*mig.W1", "*mig.W2", "*mig.W3"}},
 		// moved types: the first rename changes the import path only (same package name, same type name)
 		{"moved-leaf", []error{&mig.T1{}, &mig.T2{}, &mig.T3{}}, []string{"*mig.T1", "*mig.T2", "*mig.T3"}},
+		// error types of other kinds than (pointer to) struct: a named slice; instantiations of a generic type
+		{"slice-leaf", []error{mig.S1{1}, mig.S2{1}, mig.S3{1}}, []string{"mig.S1", "mig.S2", "mig.S3"}},
+		{"generic-leaf", []error{&mig.G1[int]{}, &mig.G2[int]{}, &mig.G3[int]{}}, []string{"*mig.G1[int]", "*mig.G2[int]", "*mig.G3[int]"}},
 	}
 	for _, fam := range families {
 		for n := 1; n <= 3; n++ {
